@@ -495,6 +495,12 @@ def run(ctx):
     check_reopen(ctx, fb)
     check_reopen_agreement(ctx, fb)
     check_flag_writers(ctx, fb)
+    # R15-5 (shared with C06 R06-11): a reopened tree rebuilds the flags from the stored leaves, so every leaf write (a reset to the default included) must reach the store
+    from . import c06 as _c06s
+    _subs = type(ctx)(ctx.pid, ctx.tier)
+    _c06s.check_store_adapter(_subs, ctx.fb("default"))
+    for r in _subs.results:
+        (ctx.ok if r.status == "ok" else ctx.fail)("R15-5", r.instance, r.reason, r.loc)
     fx = ctx.fb("fixtures")
     try:
         it = fx.need("zkfix::trees::Flagged::set_range_wrong_flags")
